@@ -45,6 +45,12 @@ NEEDS = {
 }
 MISSED_FIRST = {'C02a', 'C04a', 'C10a', 'C16a', 'C20a', 'C20b', 'C18b'}
 STRENGTHENED_BEFORE_FIRST_RUN = {'C16b', 'C04b', 'C11b'}
+HEAD = subprocess.run(['git', '-C', '/repo', 'rev-parse', '--short', 'HEAD'], capture_output=True, text=True).stdout.strip()
+# changes that a later fix: commit in /repo made harmless (kept for the record; they were confirmed and caught at the commit named)
+NEUTRALISED = {
+ 'C08a': ('ff25841', 'fix "nested splits closed by one multi-way join...": the cancelled flags this change corrupts are no longer consulted for a spine that is back to one sub-spine; demo exits 0 with the patch on the repaired tree'),
+ 'C08b': ('ff25841', 'same fix: the flag this change fails to set is no longer needed'),
+}
 
 for sid, (what, needs) in sorted(NEEDS.items()):
     d = f'/verif/seeded/{sid}'
@@ -76,6 +82,8 @@ for sid, (what, needs) in sorted(NEEDS.items()):
         'quick_checks_that_report_a_violation': caught,
         'quick_checks_inconclusive_with_patch': inconc,
         'own_check_catches_it': sid[:3] in caught,
+        'confirmed_at_repo_commit': NEUTRALISED[sid][0] if sid in NEUTRALISED else 'see git log of /verif at the time of seeded/' + sid + '/meta.json (repo HEAD ' + HEAD + ' or an ancestor; the patch still applies to HEAD)',
+        'status': ('neutralised by a later repair of /repo: ' + NEUTRALISED[sid][1]) if sid in NEUTRALISED else 'active: breaks the property on /repo HEAD',
         'history': ('missed by the own check when it arrived; closed by widening workload/oracle (DESIGN.md section 10)' if sid in MISSED_FIRST else
                     'own check strengthened after reading the author\'s summary and before its first run against this change (DESIGN.md section 10)'
                     if sid in STRENGTHENED_BEFORE_FIRST_RUN else 'caught by the own check as it stood'),
